@@ -116,7 +116,6 @@ func guardedBy(fn *ssa.Function, coll ssa.Value, idx normIdx, at ssa.Instruction
 	return found
 }
 
-
 // accessedBefore: an access coll[base+off'] with off' >= idx.off dominates `at`: if that access did not panic this one cannot.
 func accessedBefore(sites []indexSite, coll ssa.Value, idx normIdx, at ssa.Instruction) bool {
 	for _, s := range sites {
